@@ -1740,11 +1740,18 @@ bool QXmppMessage::parseExtension(const QDomElement &element, QXmpp::SceMode sce
                 QTextStream stream(&d->xhtml, QIODevice::WriteOnly);
                 bodyElement.save(stream, 0);
 
-                d->xhtml = d->xhtml.mid(d->xhtml.indexOf(u'>') + 1);
+                // strip the outer <body ...> start tag and its end tag only: the content may
+                // contain further <body/> elements (whose end tags must be kept)
+                if (const auto end = d->xhtml.lastIndexOf(u"</body>"_s); end >= 0) {
+                    d->xhtml.truncate(end);
+                    d->xhtml = d->xhtml.mid(d->xhtml.indexOf(u'>') + 1);
+                } else {
+                    // <body/> without content
+                    d->xhtml.clear();
+                }
                 d->xhtml.replace(
                     u" xmlns=\"http://www.w3.org/1999/xhtml\""_s,
                     QString());
-                d->xhtml.replace(u"</body>"_s, QString());
                 d->xhtml = d->xhtml.trimmed();
             }
             return true;
